@@ -25,7 +25,7 @@ RULE = ('simulated libraries with known truth: 1-8 cells, 1-40 sites on both str
 ASSUMPTIONS = ['the simulator is the truth (cell, site, strand, UMI by construction)',
                'for hamming>0 / radius>0 only soundness is demanded (chain linkage), for hamming 0 and radius 0 exact equality of the partition']
 MIN_NONTRIVIAL = {'quick': 60, 'thorough': 2000}
-REQUIRED_MONITORS = ['history:peek_then_full_pass', 'eject:interval_shrunk', 'partition:no_split_checked', 'class:plain_fragment', 'hook:Molecule.write_tags', 'partition:exact_compared', 'partition:soundness_checked', 'tags:molecules_checked',
+REQUIRED_MONITORS = ['history:peek_then_full_pass', 'lib:molecules_of_more_than_255_fragments', 'eject:interval_shrunk', 'partition:no_split_checked', 'class:plain_fragment', 'hook:Molecule.write_tags', 'partition:exact_compared', 'partition:soundness_checked', 'tags:molecules_checked',
                      'history:input_with_duplicate_bits', 'history:retagged', 'cli:records_checked', 'cap:overflow_molecules']
 SHARD_TIMEOUT = {'quick': 900, 'thorough': 5400}
 
@@ -137,9 +137,14 @@ def run_case(case):
     # how often the molecule buffer is checked for molecules that are out of reach (default: every 10,000 fragments, never with these sizes)
     eject_every = r.choice([None, None, 0, 1, 5, 25])
     n_sites = r.choice([1, 3, 8, 20, 40])
+    deep = case['i'] % 40 == 11
+    if deep:
+        # molecules of more than 255 fragments: the fragment-count and rank tags pass the range of a byte
+        n_sites, cap = 2, None
+        acc.count('lib:molecules_of_more_than_255_fragments')
     gen, recs, truths = F.simulate_library(
-        r, method='nla' if method == 'plain' else method, contigs=contigs, n_cells=r.randint(1, 8), n_sites=n_sites, umi_len=r.choice([3, 3, 6]),
-        umis_per_site=(1, r.choice([1, 3, 6])), copies=(1, r.choice([1, 3, 5])), case_id=case['i'] + 1, p_clip=0.25,
+        r, method='nla' if method == 'plain' else method, contigs=contigs, n_cells=r.randint(1, 8) if not deep else 1, n_sites=n_sites, umi_len=r.choice([3, 3, 6]),
+        umis_per_site=(1, r.choice([1, 3, 6])) if not deep else (1, 1), copies=(1, r.choice([1, 3, 5])) if not deep else (256, 300), case_id=case['i'] + 1, p_clip=0.25,
         p_invalid=0.08 if method == 'nla' else 0.0, p_umi_neighbour=0.5, chic_trimmed=trimmed,
         p_dup_flag=0.5 if history == 'dupbits' else 0.0, p_stale=0.6 if history == 'stale' else 0.0,
         n_unmapped=r.choice([0, 0, 3]), umi_with_n=0.05)
